@@ -397,10 +397,11 @@ def run(prop, tier):
     if stats.get("hangs"):
         print("note: %d term runs exceeded the per-term time limit (recorded as position -1); %d terms not run after that"
               % (stats["hangs"], stats.get("terms_not_run_after_hangs", 0)))
+    vacuous = None
     if not (stats.get("parses") and stats.get("tag_evals") and stats.get("json_docs")):
-        raise lib.MachineryError("driver did not reach all of the code under test: %s" % stats)
-    if stats["ok"] < stats["parses"] // 20 or stats["fail"] < stats["parses"] // 20:
-        raise lib.MachineryError("vacuous combinator run (successes %d, failures %d)" % (stats["ok"], stats["fail"]))
+        vacuous = "driver did not reach all of the code under test: %s" % stats
+    elif stats["ok"] < stats["parses"] // 40 or stats["fail"] < stats["parses"] // 40:
+        vacuous = "vacuous combinator run (successes %d, failures %d)" % (stats["ok"], stats["fail"])
 
     t1 = time.time()
     vpeg = lib.validate_traces("PegTrace", "PegTrace.cfg", traces["peg"])
@@ -410,6 +411,8 @@ def run(prop, tier):
     print("timing: validation %.1fs (%d events, %d JVMs; peg %.1fs, tag %.1fs, json %.1fs)"
           % (time.time() - t1, val["events"], val["jvms"], vpeg["wall"], vtag["wall"], vjson["wall"]))
 
+    if vacuous and not val["rejected"]:
+        raise lib.MachineryError(vacuous)      # with rejections it is a verdict, not vacuity
     byid = {}
     for k in traces:
         for t in traces[k]:
